@@ -207,7 +207,18 @@ def r3_isolation(ctx, prog):
 
 def run(ctx):
     prog = ctx.mir("main")
-    return [r1_single_state(ctx), r2_reread(ctx), r3_isolation(ctx, prog)]
+    # `every reactive accessor created before or after observes the most recently set locale`, for the macros that do not go
+    # through the builders: t_format! / t_plural! generated and read back (rules/reactmacros.py)
+    from rules import reactmacros, absint as _absint
+    r5 = Rule("C16.R5", "t_format! / t_plural!: the reactive flavours read the locale inside the returned closure",
+              "`every reactive accessor created before or after (t!, t_string!, ...) ... observe the most recently set locale`: a view built by t_format! or a "
+              "t_plural! on a context is a `move ||` closure; if the locale is read when the closure is built instead of when it runs, the view keeps "
+              "the locale of its creation after set_locale", floor=12)
+    try:
+        reactmacros.check(ctx, r5, "R5")
+    except _absint.Unknown as u:
+        r5.viol("R5:undecided", "the generators cannot be interpreted on the current code (%s): not decided on this tree (fail closed)" % str(u)[:300])
+    return [r1_single_state(ctx), r2_reread(ctx), r3_isolation(ctx, prog), r5]
 
 
 MANIFEST_ENTRY = {
